@@ -80,7 +80,11 @@ type knownFinding struct {
 }
 
 func loadKnown(prop string) []knownFinding {
-	b, err := os.ReadFile(filepath.Join(VerifDir(), "known_findings.jsonl"))
+	home := os.Getenv("VERIF_HOME")
+	if home == "" {
+		home = VerifDir()
+	}
+	b, err := os.ReadFile(filepath.Join(home, "known_findings.jsonl"))
 	if err != nil {
 		return nil
 	}
